@@ -124,6 +124,9 @@ def attribute(diag_sets: list, rows: list, line: int) -> tuple[set, list]:
             if f in ("not_enabled", "skipped_timer") and row.get("c") == "int" and "PingRequest" in row.get("w", []):
                 p = "C10"
             props.add(p)
+            if f in ("not_enabled", "skipped_timer") and prev_closed:
+                # something of a closed connection is still going on (a task blocked on it, a timer armed): C08 as well
+                props.add("C08")
         elif f == "d":
             props.add("C08" if (prev_closed or row.get("cs") == "closed") else "C12")
             if not prev_closed:
